@@ -87,6 +87,19 @@ def append (st : St) (d m : Bytes) : St :=
     offM := st.offM + m'.length
     idx := st.idx ++ [⟨m', st.offD⟩] }
 
+/-- two bulks whose file writes interleave as docs(a) docs(b) meta(b) meta(a): what `ActiveWriter.mu` excludes
+(the FileWriters alone would allow it: each reserves its own offsets).  Both are acknowledged; the indexer is
+handed each meta block right after its write. -/
+def appendInterleaved (st : St) (da ma db mb : Bytes) : St :=
+  let ma' := stampMeta ma da.length st.offD
+  let mb' := stampMeta mb db.length (st.offD + da.length)
+  { st with
+    docs := writeAt (writeAt st.docs st.offD da) (st.offD + da.length) db
+    mfile := writeAt (writeAt st.mfile st.offM mb') (st.offM + mb'.length) ma'
+    offD := st.offD + da.length + db.length
+    offM := st.offM + mb'.length + ma'.length
+    idx := st.idx ++ [⟨mb', st.offD + da.length⟩, ⟨ma', st.offD⟩] }
+
 /-- where the process dies inside `ActiveWriter.Write` -/
 inductive CrashPt where
   | docsTorn (k : Nat)    -- before the docs fsync returned: the first `k` bytes of the docs block are on disk
